@@ -48,6 +48,19 @@ fn main() {
             simkit::keys::generate_pool(&PathBuf::from(p), arg_u64(&args, "--n").unwrap_or(12) as usize);
             0
         }
+        "addr" => {
+            // debugging aid: the library's renderings of the given socket addresses
+            for a in &args[2..] {
+                match a.parse::<std::net::SocketAddr>() {
+                    Ok(sa) => {
+                        let r = std::panic::catch_unwind(|| saorsa_core::address::NetworkAddress::new(sa));
+                        match r { Ok(na) => println!("{a} -> `{na}` words={:?}", na.four_words()), Err(_) => println!("{a} -> PANIC in NetworkAddress::new") }
+                    }
+                    Err(e) => println!("{a}: {e}"),
+                }
+            }
+            0
+        }
         "list" => {
             for d in checks::all() {
                 println!("{} {} runs={:?}", d.id, d.level, d.runs);
